@@ -111,6 +111,9 @@ class Timers(SM.Monitor):
                 continue
             h = W.dec_header(o.data)
             if h['flags']['response']:
+                if ev.kind == 'tick':
+                    sim.fail('timer-sent-a-response', f'the timer sweep transmitted a {SM.W_EXCH.get(h["exchange"])} response (ID '
+                                                      f'{h["msgid"]}); only outstanding requests are retransmitted')
                 continue
             own = h['spi_i'] if h['flags']['initiator'] else h['spi_r']
             key = (o.sender, own, h['msgid'], h['exchange'])
@@ -149,6 +152,17 @@ class Timers(SM.Monitor):
                     rec['last'] = o.data
         if not ep.up:
             return
+        # a request whose deadline has passed is re-sent by the sweep (unless the budget is spent)
+        if ev.kind == 'tick':
+            for sid, (sa, st0, rt_at, rtx, mid) in pre.items():
+                if st0 in SM.REQ_SENT and rt_at < now and rtx < IkeSa.MAX_RETRANSMISSIONS and sa.state == st0:
+                    own = bytes(sa.my_spi).hex()
+                    sent = [o for o in ev.out if len(o.data) >= 28 and not o.data[19] & 0x20 and
+                            (o.data[0:8] if o.data[19] & 0x08 else o.data[8:16]).hex() == own]
+                    if not sent:
+                        sim.fail('retransmission-missing', f'a {st0.name} request was due for retransmission (deadline passed '
+                                                           f'{now - rt_at:.1f}s ago, {rtx} of {IkeSa.MAX_RETRANSMISSIONS} transmissions '
+                                                           f'used) but the sweep did not re-send it')
         # per IKE_SA transitions of this event
         for sid, (sa, st0, rt_at, rtx, mid) in pre.items():
             st1 = sa.state
@@ -236,10 +250,30 @@ def run_case(case):
         horizon = cfg['dpd'] + budget() + 4
         t = 0.0
         dt = case.get('end_dt', 1.0)
+        noise = case.get('noise')
+        k = 0
         while t < horizon + dt:
             s.tick(dt, ['tick', dt])
             s.w.inflight.clear()          # nothing gets through any more
             t += dt
+            k += 1
+            if noise and k % 3 == 0:
+                # somebody (not the dead peer: it holds no keys) keeps sending datagrams that carry the IKE_SA's SPIs
+                for side in survivors:
+                    for q in list(s.eps[side].sas):
+                        if q.state < State.ESTABLISHED:
+                            continue
+                        peer_init = not q.is_initiator
+                        if noise == 'wrong_flag':
+                            peer_init = not peer_init
+                        m = {'spi_i': bytes(q.spi_i).hex(), 'spi_r': bytes(q.spi_r).hex(), 'exchange': 34 if noise == 'clear_init' else 37,
+                             'msgid': 0 if noise == 'clear_init' else q.peer_msg_id,
+                             'flags': {'response': noise == 'clear_init', 'initiator': peer_init}, 'payloads': []}
+                        data = bytes(W.encode(m))
+                        if noise == 'bad_checksum':
+                            data = data[:16] + bytes([46]) + data[17:24] + (28 + 52).to_bytes(4, 'big') + bytes([0, 0, 0, 52]) + bytes(48)
+                        s.apply(['inject', side, 'peer', data.hex()])
+                s.w.inflight.clear()
         for side in survivors:
             ep = s.eps[side]
             if ep.kernel.sad:
@@ -305,6 +339,7 @@ def cases(draw):
     ops = [['acquire', draw(st.sampled_from(['a', 'b'])), 0, 1]] + draw(ops_strategy())
     return {'cfg': draw(cfg_params), 'ops': ops,
             'end': draw(st.sampled_from(['drain', 'drain', 'crash_a', 'crash_b', 'partition'])),
+            'noise': draw(st.sampled_from([None, None, 'clear_init', 'clear_info', 'wrong_flag', 'bad_checksum'])),
             'end_dt': draw(st.sampled_from([0.5, 1.0, 1.0, 3.0]))}
 
 
@@ -355,6 +390,9 @@ def directed_cases():
             for end in ('crash_a', 'crash_b', 'partition'):
                 for dt in (1.0, 3.0):
                     out.append({'cfg': cfgp, 'ops': scen[:cut], 'end': end, 'end_dt': dt, 'directed': 'crash'})
+                if end != 'partition' and cut % 4 == 0:
+                    for noise in ('clear_init', 'clear_info', 'wrong_flag', 'bad_checksum'):
+                        out.append({'cfg': cfgp, 'ops': scen[:cut], 'end': end, 'end_dt': 1.0, 'directed': 'crash+noise', 'noise': noise})
     # lifetimes: idle IKE_SA through rekey and, with every rekey answered TEMPORARY_FAILURE, through the hard deadline
     idle = [['acquire', 'a', 0, 1]] + [['deliver', 0]] * 4
     for dt in (0.5, 1.0, 2.5, 4.0, 4.0):
@@ -400,3 +438,6 @@ def run(ctx):
                              f'(plain, COOKIE, INVALID_KE_PAYLOAD on IKE_SA_INIT, INVALID_KE_PAYLOAD on CREATE_CHILD_SA); a crash of '
                              f'either side or a partition after every step of a 16-step scenario; idle IKE_SAs run through lifetime, '
                              f'rekey collisions (TEMPORARY_FAILURE) and the hard deadline at 5 tick granularities x 3 DPD intervals')
+    if not ctx.quick:
+        import sys as _sys
+        common.hyp_fuzz_stage(ctx, _sys.modules[__name__], 'cases()')
